@@ -61,6 +61,13 @@ CHECKS["C03"] = dict(
     technique="forward must-dataflow (must-pass-through with delegation closure) over the clang CFG",
 )
 
+CHECKS["C13"] = dict(
+    text="Static decision of the structural clauses of C13 over all complete hash-to-curve implementations (prime, extension-field, binary, Edwards; under the 256-, 255- and 381-bit configuration headers, i.e. incl. maps no test configuration hashes to) and the cofactor routines: the cofactor is cleared, or the work delegated to a map that clears it, after the last write of the point on every path to a normal return (MAP-COF, forward must-dataflow); the cofactor routines write their result on every path (OUT-DEF), return the input unchanged only where the cofactor is known to be 1 (COF-ID) and multiply by a value of the right origin in each arm (COF-PARAM: curve parameter in family arms, tabulated cofactor in the generic arm); no map can reach the random generator other than through representation blinding, nor keeps writable static data (MAP-PURE, call graph). Equality with the documented construction, exceptional-input handling and termination of retry loops are not decided.",
+    design_ref="DESIGN.md section 3 (C13)",
+    note="Trusted: clang parser/CFG, extractor, the name pattern of complete maps, the table of clearing idioms per family and of cofactor-one pairing families (EP_BN). Validated on every run by miniatures in sa/selftest/c13.c.",
+    technique="forward must-dataflow (must-pass-through with delegation closure, origin tracking) + call-graph reachability over the clang CFG",
+)
+
 NOT_APPLICABLE = {
     "C10": "every clause is an equality of ring elements for all operand values; no guard, ordering or ownership structure whose violation is visible in the code's shape, and lazy-reduction bounds need a relational numeric domain that goto-analyzer's intervals cannot carry across the *_low calls",
     "C11": "group law, [k]Q, Frobenius eigenvalue and cofactor image are algebraic identities over runtime values; the structural clauses (decoders, buffers, regularity) of the ep2..ep8 siblings are decided under C07, C08 and C20",
